@@ -398,26 +398,32 @@ def x_samename(tier='quick'):
 
 
 def x_diamond(tier='quick'):
-    """diamond import: top.xsd imports left.xsd and right.xsd, both import common.xsd and extend its type; the order of
-    the two imports in top.xsd is symbolic"""
-    NSL, NSR, NSC = 'http://example.com/left', 'http://example.com/right', 'http://example.com/common'
+    """diamond import with three arms: top.xsd imports left.xsd, middle.xsd and right.xsd, all of which import common.xsd and
+    extend its type; the order of the three imports in top.xsd is symbolic"""
+    NSL, NSM, NSR, NSC = 'http://example.com/left', 'http://example.com/middle', 'http://example.com/right', 'http://example.com/common'
     common = CT('Common', Seq([El('id', 'xs:string')]), attrs=[Attr('rev', 'xs:int')])
     sch_c = Schema(NSC, [common], prefixes={'com': NSC})
     left = CT('Left', Seq([El('l', 'xs:string')]), base='com:Common')
     sch_l = Schema(NSL, [left], prefixes={'lef': NSL, 'com': NSC}, imports=[(NSC, 'common.xsd')])
+    middle = CT('Middle', Seq([El('m', 'xs:long')]), base='com:Common')
+    sch_m = Schema(NSM, [middle], prefixes={'mid': NSM, 'com': NSC}, imports=[(NSC, 'common.xsd')])
     right = CT('Right', Seq([El('r', 'xs:int')]), base='com:Common')
     sch_r = Schema(NSR, [right], prefixes={'rig': NSR, 'com': NSC}, imports=[(NSC, 'common.xsd')])
-    top = CT('Top', Seq([El('t', 'xs:string'), El('other', 'rig:Right')]), base='lef:Left')
-    first = Selector('first_import', ['left', 'right'])
-    imp_a = smap(lambda f: 'left.xsd' if f == 'left' else 'right.xsd', first.sym())
-    imp_b = smap(lambda f: 'right.xsd' if f == 'left' else 'left.xsd', first.sym())
-    ns_a = smap(lambda f: NSL if f == 'left' else NSR, first.sym())
-    ns_b = smap(lambda f: NSR if f == 'left' else NSL, first.sym())
-    sch_t = Schema(NS1, [top], prefixes={'app': NS1, 'lef': NSL, 'rig': NSR}, imports=[(ns_a, imp_a), (ns_b, imp_b)])
-    sc = Scenario('X-diamond', {'top.xsd': sch_t, 'left.xsd': sch_l, 'right.xsd': sch_r, 'common.xsd': sch_c}, 'top.xsd', [first])
-    return sc, Info(schemas={'top.xsd': sch_t, 'left.xsd': sch_l, 'right.xsd': sch_r, 'common.xsd': sch_c}, subjects=[('common.xsd', common)],
-                    derived=[('left.xsd', left, ('common.xsd', common)), ('right.xsd', right, ('common.xsd', common)), ('top.xsd', top, ('left.xsd', left))], simple=[],
-                    bases={'Common': None, 'Left': ('common.xsd', common), 'Right': ('common.xsd', common), 'Top': ('left.xsd', left)})
+    top = CT('Top', Seq([El('t', 'xs:string'), El('other', 'rig:Right'), El('third', 'mid:Middle')]), base='lef:Left')
+    arms = [('left.xsd', NSL), ('middle.xsd', NSM), ('right.xsd', NSR)]
+    order = Selector('import_order', perms(3))
+    imps = []
+    for k in range(3):
+        loc = smap(lambda o, k=k: arms[o[k]][0], order.sym())
+        ns = smap(lambda o, k=k: arms[o[k]][1], order.sym())
+        imps.append((ns, loc))
+    sch_t = Schema(NS1, [top], prefixes={'app': NS1, 'lef': NSL, 'rig': NSR, 'mid': NSM}, imports=imps)
+    files = {'top.xsd': sch_t, 'left.xsd': sch_l, 'middle.xsd': sch_m, 'right.xsd': sch_r, 'common.xsd': sch_c}
+    sc = Scenario('X-diamond', files, 'top.xsd', [order])
+    return sc, Info(schemas=files, subjects=[('common.xsd', common)],
+                    derived=[('left.xsd', left, ('common.xsd', common)), ('middle.xsd', middle, ('common.xsd', common)), ('right.xsd', right, ('common.xsd', common)),
+                             ('top.xsd', top, ('left.xsd', left))], simple=[],
+                    bases={'Common': None, 'Left': ('common.xsd', common), 'Middle': ('common.xsd', common), 'Right': ('common.xsd', common), 'Top': ('left.xsd', left)})
 
 
 def three_ns_doc():
